@@ -41,6 +41,8 @@ def shapes(tier, seed):
         out.append(('orders', carrier, 'signed'))
         out.append(('orders', carrier, 'prefix-unsigned'))
         out.append(('orders', carrier, 'wrong-sig'))
+        out.append(('orders', carrier, 'dup-name'))       # one parameter name twice with different values (ties for any sort keyed by name)
+        out.append(('repeat', carrier, 'dup-name'))
         out.append(('repeat', carrier, 'signed'))
         out.append(('repeat', carrier, 'wrong-sig'))
         out.append(('repeat', carrier, 'bad-date'))
@@ -55,8 +57,12 @@ def build(m, ctx, carrier, variant, key):
     vals = [Int('u8', ctx.fresh_bv('qv%d' % i, 8)) for i in range(3)]
     for e in vals:
         ctx.assume(zb(R.unreserved_f(e)))
-    pairs = [(conc_bytes('zeta'), [vals[0]]), (conc_bytes('alpha'), [vals[1]]), (conc_bytes('mid'), [vals[2]])]
-    wire_q = conc_bytes('zeta=') + [vals[0]] + conc_bytes('&alpha=') + [vals[1]] + conc_bytes('&mid=') + [vals[2]]
+    third = 'mid'
+    if variant == 'dup-name':
+        third = 'alpha'
+        ctx.assume(vals[1].z() != vals[2].z())
+    pairs = [(conc_bytes('zeta'), [vals[0]]), (conc_bytes('alpha'), [vals[1]]), (conc_bytes(third), [vals[2]])]
+    wire_q = conc_bytes('zeta=') + [vals[0]] + conc_bytes('&alpha=') + [vals[1]] + conc_bytes('&' + third + '=') + [vals[2]]
     hv = [Int('u8', ctx.fresh_bv('hv%d' % i, 8)) for i in range(2)]
     for e in hv:
         ctx.assume(z3.And(z3.UGE(e.z(), 0x21), z3.ULE(e.z(), 0x7E)))
@@ -264,11 +270,45 @@ def replay_finding(rp, f):
         k_bad = native_repeat(rp, bad, reqs)
         after = native_repeat(rp, sg, reqs)
         return alone == 'ok' and after != 'ok', {'good_alone': alone, 'bad_first': k_bad, 'good_after_bad': after}
-    # the native process uses a fresh random hash seed per map: repeat many times and look for differing kinds
-    kinds = set()
-    for _ in range(64):
-        kinds.add(native_repeat(rp, inp['request'], {'kind': 'slice', 'always': [], 'if_in': [], 'prefixes': ['x-amz-meta']}))
-    return len(kinds) > 1, {'native_kinds_over_64_runs': sorted(kinds)}
+    # the native process uses a fresh random hash seed per map: repeat many times and look for differing kinds.  The model's
+    # signature is an oracle symbol, so the request is first re-signed with real digests (for the variants that are meant to be valid).
+    reqs = {'kind': 'slice', 'always': [], 'if_in': [], 'prefixes': ['x-amz-meta']}
+    carrier, variant = inp['shape'][1], inp['shape'][2]
+    j = inp['request']
+    base = c02.strip_signature(j, carrier)
+    signed_names = ['host'] if variant == 'prefix-unsigned' else ['host', 'x-amz-meta-a', 'x-amz-meta-b']
+    signed_names = sorted(signed_names + (['x-amz-date'] if carrier == 'header' else []))
+
+    def resign(rq):
+        sg = c02.sign_concrete({'carrier': carrier, 'request': rq, 'signed': signed_names, 's3': False})[0]
+        if variant == 'wrong-sig':
+            if carrier == 'query':
+                sg['uri'] = sg['uri'][:-1] + ('0' if sg['uri'][-1] != '0' else '1')
+            else:
+                hv = bytes.fromhex(sg['headers'][-1][1]).decode()
+                sg['headers'][-1][1] = (hv[:-1] + ('0' if hv[-1] != '0' else '1')).encode().hex()
+        return sg
+
+    def kinds_of(rq, n=64):
+        return {native_repeat(rp, rq, reqs) for _ in range(n)}
+    k1 = kinds_of(resign(base))
+    if len(k1) > 1:
+        return True, {'native_kinds_over_64_runs': sorted(k1)}
+    # Same request class scaled up: the model treats the order of equal-key elements after an unstable sort (and the iteration
+    # order of a HashMap) as arbitrary; std's unstable sort only reorders ties above its small-sort threshold (32 elements), so
+    # the witness is padded with 40 further distinct parameters before it is run natively.
+    uri = base['uri']
+    path, _, q = uri.partition('?')
+    pad = '&'.join('p%02d=%d' % (i, i) for i in range(40))
+    if carrier == 'query':
+        i = q.find('&X-Amz-Algorithm=')
+        q2 = q[:i] + '&' + pad + q[i:]
+    else:
+        q2 = q + '&' + pad
+    padded = dict(base, uri=path + '?' + q2)
+    k2 = kinds_of(resign(padded), 96)
+    return len(k2) > 1, {'native_kinds_over_64_runs': sorted(k1), 'padded_with_40_parameters_kinds_over_96_runs': sorted(k2),
+                         'padded_uri': padded['uri'][:160]}
 
 
 def conformance(prog, rp, seed, tier):
